@@ -5,16 +5,18 @@
   adjacent levels, so what a reference denotes has to be stated over assignments of
   *names*: `denN t u a = den t u (a ∘ l2v)`.
 
-  * `VarsOK t`   : `vars` and `_level_to_var` are mutually inverse bijections between the
+  * `OrderOK t`   : `vars` and `_level_to_var` are mutually inverse bijections between the
                    declared names and the levels `0 .. nvars-1`.
   * `swp x y`    : the transposition of two levels.
-  * `exchangeVars` : what `swap` does to the two maps; `VarsOK` is preserved, the four views
+  * `exchangeVars` : what `swap` does to the two maps; `OrderOK` is preserved, the four views
                    of the order (`vars`, `_level_to_var`, `level_of_var`, `var_at_level`)
                    agree afterwards, exactly the two names are exchanged.
   * `denN_of_den_swp` : a table whose level-denotation is the old one composed with the
                    transposition has the SAME name-denotation once the maps are exchanged.
 -/
 import DDProofs.Canon
+import DDProofs.VarsProofs
+import DDProofs.SatPick
 open Std
 
 namespace DD
@@ -53,51 +55,57 @@ def Asg.swp (b : Asg) (x y : Nat) : Asg := fun i => b (DD.swp x y i)
 @[simp] theorem Asg.swp_swp (b : Asg) (x y : Nat) : (b.swp x y).swp x y = b := by
   funext i; simp [Asg.swp]
 
-/-! ### names -/
+/-! ### names
 
-/-- `vars` and `_level_to_var` are mutually inverse bijections between names and `0..nvars-1` -/
-structure VarsOK (t : Tbl) : Prop where
-  /-- `vars[v] = i` iff `_level_to_var[i] = v` -/
-  inv : ∀ (v : String) (i : Nat), t.vars[v]? = some i ↔ t.l2v[i]? = some v
-  /-- the levels are exactly `0 .. nvars-1` -/
-  dom : ∀ i : Nat, (t.l2v[i]?).isSome ↔ i < t.nvars
+`OrderOK t` (DDProofs.VarsProofs, C14): `vars` and `_level_to_var` are mutually inverse bijections
+between the declared names and the levels `0 .. nvars-1`.  `denN t u σ = den t u (t.lift σ)`
+(DDProofs.SatPick): what the reference `u` denotes as a function of variable NAMES. -/
 
-theorem VarsOK.lvl_lt {t : Tbl} (h : VarsOK t) {v : String} {i : Nat} (hv : t.vars[v]? = some i) :
-    i < t.nvars := by
-  apply (h.dom i).mp
-  rw [(h.inv v i).mp hv]; rfl
+theorem OrderOK.dom {t : Tbl} (h : OrderOK t) (i : Nat) : (t.l2v[i]?).isSome ↔ i < t.nvars := by
+  constructor
+  · intro hs
+    obtain ⟨v, hv⟩ := Option.isSome_iff_exists.mp hs
+    exact h.lt v i ((h.inv v i).mpr hv)
+  · intro hi
+    obtain ⟨v, hv⟩ := h.total i hi
+    rw [hv]; rfl
 
-theorem VarsOK.name_at {t : Tbl} (h : VarsOK t) {i : Nat} (hi : i < t.nvars) :
+theorem OrderOK.lvl_lt {t : Tbl} (h : OrderOK t) {v : String} {i : Nat} (hv : t.vars[v]? = some i) :
+    i < t.nvars := h.lt v i hv
+
+theorem OrderOK.name_at {t : Tbl} (h : OrderOK t) {i : Nat} (hi : i < t.nvars) :
     ∃ v, t.l2v[i]? = some v ∧ t.vars[v]? = some i := by
-  obtain ⟨v, hv⟩ := Option.isSome_iff_exists.mp ((h.dom i).mpr hi)
+  obtain ⟨v, hv⟩ := h.total i hi
   exact ⟨v, hv, (h.inv v i).mpr hv⟩
 
-theorem VarsOK.vars_inj {t : Tbl} (h : VarsOK t) {v v' : String} {i : Nat}
+theorem OrderOK.vars_inj {t : Tbl} (h : OrderOK t) {v v' : String} {i : Nat}
     (h1 : t.vars[v]? = some i) (h2 : t.vars[v']? = some i) : v = v' := by
   have a := (h.inv v i).mp h1
   have b := (h.inv v' i).mp h2
   rw [a] at b; exact Option.some.inj b
 
-theorem VarsOK.l2v_inj {t : Tbl} (h : VarsOK t) {v : String} {i j : Nat}
+theorem OrderOK.l2v_inj {t : Tbl} (h : OrderOK t) {v : String} {i j : Nat}
     (h1 : t.l2v[i]? = some v) (h2 : t.l2v[j]? = some v) : i = j := by
   have a := (h.inv v i).mpr h1
   have b := (h.inv v j).mpr h2
   rw [a] at b; exact Option.some.inj b
 
-/-- the assignment of levels induced by an assignment of names -/
-def lvlAsg (t : Tbl) (a : String → Bool) : Asg :=
-  fun i => match t.l2v[i]? with | some v => a v | none => false
+/-- the weaker condition used by the enumeration proofs (DDProofs.SatPick) follows -/
+theorem OrderOK.toVarsOK {t : Tbl} (h : OrderOK t) : VarsOK t := by
+  refine ⟨h.total, ?_⟩
+  intro i j hi hj he
+  obtain ⟨vi, hvi⟩ := h.total i hi
+  obtain ⟨vj, hvj⟩ := h.total j hj
+  simp only [Tbl.nameOf, hvi, hvj, Option.getD_some] at he
+  subst he
+  exact h.l2v_inj hvi hvj
 
-/-- what the reference `u` denotes as a function of variable NAMES -/
-def denN (t : Tbl) (u : Int) (a : String → Bool) : Bool :=
-  den t u (fun i => match t.l2v[i]? with | some v => a v | none => false)
-
-theorem denN_eq (t : Tbl) (u : Int) (a : String → Bool) : denN t u a = den t u (lvlAsg t a) := rfl
+theorem denN_eq (t : Tbl) (u : Int) (a : String → Bool) : denN t u a = den t u (t.lift a) := rfl
 
 /-- the name-denotation only depends on the nodes and on `_level_to_var` -/
 theorem denN_congr {t t' : Tbl} (hs : t'.succ = t.succ) (hl : t'.l2v = t.l2v)
     (hn : t'.nvars = t.nvars) (u : Int) (a : String → Bool) : denN t' u a = denN t u a := by
-  unfold denN den
+  unfold denN den Tbl.lift Tbl.nameOf
   rw [hl, hn]
   have : ∀ f u b, denF t' f u b = denF t f u b := by
     intro f
@@ -138,7 +146,7 @@ theorem exchangeVars_l2v (t : Tbl) (x y : Nat) (vx vy : String) (hxy : x ≠ y)
     · have h2' : ¬ y = i := fun h => h2 h.symm
       simp [h1', h2', swp_other h1 h2]
 
-theorem exchangeVars_vars (t : Tbl) (h : VarsOK t) (x y : Nat) (vx vy : String) (hxy : x ≠ y)
+theorem exchangeVars_vars (t : Tbl) (h : OrderOK t) (x y : Nat) (vx vy : String) (hxy : x ≠ y)
     (hx : t.l2v[x]? = some vx) (hy : t.l2v[y]? = some vy) (v : String) :
     (exchangeVars t x y vx vy).vars[v]? = (t.vars[v]?).map (swp x y) := by
   show ((t.vars.insert vx y).insert vy x)[v]? = _
@@ -165,7 +173,7 @@ theorem exchangeVars_vars (t : Tbl) (h : VarsOK t) (x y : Nat) (vx vy : String) 
           intro he; subst he; rw [hy] at hi; exact h1 (Option.some.inj hi).symm
         simp [swp_other hix hiy]
 
-theorem exchangeVars_nvars (t : Tbl) (h : VarsOK t) (x y : Nat) (vx vy : String)
+theorem exchangeVars_nvars (t : Tbl) (h : OrderOK t) (x y : Nat) (vx vy : String)
     (hx : t.l2v[x]? = some vx) (hy : t.l2v[y]? = some vy) :
     (exchangeVars t x y vx vy).nvars = t.nvars := by
   show ((t.vars.insert vx y).insert vy x).size = t.vars.size
@@ -182,13 +190,18 @@ theorem exchangeVars_nvars (t : Tbl) (h : VarsOK t) (x y : Nat) (vx vy : String)
   simp [c1, c2]
 
 /-- the exchange keeps the two maps mutually inverse bijections onto `0..nvars-1` -/
-theorem VarsOK.exchange {t : Tbl} (h : VarsOK t) (x y : Nat) (vx vy : String) (hxy : x ≠ y)
+theorem OrderOK.exchange {t : Tbl} (h : OrderOK t) (x y : Nat) (vx vy : String) (hxy : x ≠ y)
     (hx : t.l2v[x]? = some vx) (hy : t.l2v[y]? = some vy) :
-    VarsOK (exchangeVars t x y vx vy) := by
+    OrderOK (exchangeVars t x y vx vy) := by
   have hxn : x < t.nvars := (h.dom x).mp (by rw [hx]; rfl)
   have hyn : y < t.nvars := (h.dom y).mp (by rw [hy]; rfl)
-  refine ⟨?_, ?_⟩
-  · intro v i
+  have hdom : ∀ i, ((exchangeVars t x y vx vy).l2v[i]?).isSome ↔ i < (exchangeVars t x y vx vy).nvars := by
+    intro i
+    rw [exchangeVars_l2v t x y vx vy hxy hx hy, exchangeVars_nvars t h x y vx vy hx hy, h.dom,
+      swp_lt hxn hyn]
+  have hinv : ∀ (v : String) (i : Nat), (exchangeVars t x y vx vy).vars[v]? = some i ↔
+      (exchangeVars t x y vx vy).l2v[i]? = some v := by
+    intro v i
     rw [exchangeVars_vars t h x y vx vy hxy hx hy, exchangeVars_l2v t x y vx vy hxy hx hy]
     rw [← h.inv v (swp x y i)]
     cases hv : t.vars[v]? with
@@ -198,9 +211,11 @@ theorem VarsOK.exchange {t : Tbl} (h : VarsOK t) (x y : Nat) (vx vy : String) (h
       constructor
       · intro e; rw [← e]; simp
       · intro e; rw [e]; simp
-  · intro i
-    rw [exchangeVars_l2v t x y vx vy hxy hx hy, exchangeVars_nvars t h x y vx vy hx hy, h.dom,
-      swp_lt hxn hyn]
+  refine ⟨hinv, ?_, ?_⟩
+  · intro v i hv
+    exact (hdom i).mp (by rw [(hinv v i).mp hv]; rfl)
+  · intro i hi
+    exact Option.isSome_iff_exists.mp ((hdom i).mpr hi)
 
 /-- exactly the two names are exchanged: the name at `x` is the old name at `y` and vice versa,
 every other level keeps its name -/
@@ -218,9 +233,9 @@ theorem exchangeVars_names (t : Tbl) (x y : Nat) (vx vy : String) (hxy : x ≠ y
 transposition -/
 theorem lvlAsg_exchange (t : Tbl) (x y : Nat) (vx vy : String) (hxy : x ≠ y)
     (hx : t.l2v[x]? = some vx) (hy : t.l2v[y]? = some vy) (a : String → Bool) :
-    lvlAsg (exchangeVars t x y vx vy) a = (lvlAsg t a).swp x y := by
+    (exchangeVars t x y vx vy).lift a = (t.lift a).swp x y := by
   funext i
-  simp only [lvlAsg, Asg.swp]
+  simp only [Tbl.lift, Tbl.nameOf, Asg.swp]
   rw [exchangeVars_l2v t x y vx vy hxy hx hy]
 
 /-- **Semantics by name through an exchange.**  If the level-denotation of `u` in `t'` is the
@@ -231,12 +246,11 @@ theorem denN_of_den_swp (t t' : Tbl) (x y : Nat) (vx vy : String) (hxy : x ≠ y
     (hl : t'.l2v = (exchangeVars t x y vx vy).l2v)
     (u : Int) (hd : ∀ b : Asg, den t' u (b.swp x y) = den t u b) (a : String → Bool) :
     denN t' u a = denN t u a := by
-  rw [denN_eq, denN_eq, ← hd (lvlAsg t a)]
+  rw [denN_eq, denN_eq, ← hd (t.lift a)]
   congr 1
   have := lvlAsg_exchange t x y vx vy hxy hx hy a
   rw [← this]
-  show lvlAsg t' a = _
-  unfold lvlAsg
+  unfold Tbl.lift Tbl.nameOf
   rw [hl]
 
 end DD
